@@ -425,6 +425,19 @@ def task_names_alpha(args):
     return L.pack()
 
 
+# names / file names that look like further Content-Disposition parameters: inside the quoted string they are text
+HOSTILE_NAMES = ["a;filename=b", "x; name=y", "notes;name=evil.txt", "a;name=b;filename=c", "a; filename*=utf-8''b",
+                 "a;name*0=b", "a=b;c=d", ";name=z", "a;NAME=b", "n; filename=f.txt; x"]
+
+
+def task_names_hostile(args):
+    L = Local()
+    for nm in HOSTILE_NAMES:
+        check_parts(L, [fld(nm, "v"), fil("f", b"w", filename=nm, ctype="text/plain")], b"b", PIPES_ALL)
+        check_parts(L, [fil(nm, b"w", filename="plain.txt", ctype="text/plain"), fld("k", nm)], B8, PIPES_ALL)
+    return L.pack()
+
+
 def task_names_codepoints(args):
     lo, hi, heavy_every = args
     L = Local()
@@ -664,6 +677,7 @@ def _tasks(tier, seed):
         tasks.append(("task_lists", (i, 2, True)))
         tasks.append(("task_lists", (i, 1, True)))
     tasks.append(("task_boundaries", (tier,)))
+    tasks.append(("task_names_hostile", (tier,)))
     for lo in range(0, top, 0x2000):
         tasks.append(("task_text_values", (lo, lo + 0x2000, True)))
     # all byte values (deterministic); seeded random part lists only in the thorough tier
